@@ -19,8 +19,22 @@ import (
 	"golang.org/x/tools/go/ssa/ssautil"
 )
 
+// repoDir is the tree under verification. VERIF_REPO points the tool at a
+// scratch copy (used to evaluate the checks against seeded changes); the
+// registered commands never set it.
+var repoDir = envOr("VERIF_REPO", "/repo")
+
+// outDir receives evidence and replay files (VERIF_OUT for scratch runs).
+var outDir = envOr("VERIF_OUT", "/verif")
+
+func envOr(k, d string) string {
+	if v := os.Getenv(k); v != "" {
+		return v
+	}
+	return d
+}
+
 const (
-	repoDir    = "/repo"
 	modPath    = "perun.network/go-perun"
 	overlayDir = "/verif/harness/overlay"
 	rtPkg      = modPath + "/internal/verifrt"
